@@ -234,5 +234,7 @@ def run(ctx):
         "whole-table delete is checked with DeleteTableRange.CheckValid and built exactly like KVNode.DeleteRange builds its "
         "proposal, then applied through the state machine; a refused delete (reply -998) must change nothing",
         "mem engine: prefix-free name pools only (recorded C20 finding on radix iterators), no expiry pass (recorded finding)",
-        "table names longer than 65 535 bytes (16-bit length prefix) are outside the pools",
+        "limit probes: key / sub-key / value lengths at the documented limits (10 240 / 10 240 / 8 MiB, constants of the "
+        "model) +-1 and around 65 536; between the two readings of the key limit (key alone / table:key) either answer is "
+        "accepted; table-name lengths are not limited by the code and table names longer than 65 535 bytes are outside the pools",
     ])
